@@ -138,7 +138,8 @@ def generate(thorough):
     add("real a; { bool c; a >= 8.0; } or { bool d; a <= 0.0; a >= 8.0; }",
         {"kind": "ctor", "shape": "boolean-declared-in-disjunct", "sat": True, "lower": 8})
     # ---- enums ----
-    for decl, size in (('enum E {"a", "b"};', 2), ('enum E {"a", "b", "c"};', 3), ('enum G {"c"}; enum E {"a", "b"} | G;', 3), ('enum G {"c", "d"}; enum H {"e"}; enum E {"a"} | G | H;', 4)):
+    for decl, size in (('enum E {"a", "b"};', 2), ('enum E {"a", "b", "c"};', 3), ('enum G {"c"}; enum E {"a", "b"} | G;', 3), ('enum G {"c", "d"}; enum H {"e"}; enum E {"a"} | G | H;', 4),
+                       ('enum B {"r", "g"}; enum M {"b"} | B; enum E {"y", "k"} | M;', 5), ('enum B {"r"}; enum M {"b"} | B; enum T {"t"} | M; enum E {"y"} | T;', 4)):
         for cons in ([], ["x != y;"], ["x == y;"], ["x != y;", "y != z;", "x != z;"]):
             add(decl + " E x; E y; E z; " + " ".join(cons), {"kind": "enum", "size": size, "cons": cons})
     return progs
